@@ -42,8 +42,10 @@ SignKey(e) ==
     IN IF EmitX([id |-> e.id, kind |-> "sign", hash |-> SigHash(e.alg), realok |-> (flt = ""),
                  signed |-> SignedOctets(e.msg, rsOut), sigoff |-> L + 11 + Len(rs),
                  specout |-> Output(e.msg, rs, Zeros(e.siglen)), specsigned |-> SignedOctets(e.msg, rs),
-                 regions |-> Regions(e.msg, rs, e.siglen)])
+                 regions |-> Regions(e.msg, rs, e.siglen), fields |-> RdataFields(e.msg, rs)])
        THEN IF ~e.ok THEN "sig0/sign-" \o e.errclass \o (IF e.compress THEN "-compressed" ELSE "") \o Preset(e)
+            \* the octets handed back are the caller's: a later Sign (same process, any SIG value) does not touch them
+            ELSE IF "stable" \in DOMAIN e /\ ~e.stable THEN "sig0/sign-result-changed-by-later-sign"
             ELSE IF flt # "" THEN (IF e.reused /\ flt = ":signature-length" THEN "sig0/sign-reused-sig-struct" ELSE "sig0/sign-layout" \o flt \o Preset(e))
             ELSE ""
        ELSE "trace/emit"
